@@ -758,3 +758,82 @@ def nested_ty(g, depth):
     if r.random() < 0.3:
         opts = ['none'] + opts
     return ['union'] + opts
+
+
+# -------------------------------------------------------------------- tree positions of a value (C17)
+def _get_depth(n):
+    return 0 if n <= 1 else (n - 1).bit_length()
+
+
+def _chunk_len(t, n):
+    et = t[1]
+    if is_basic(et):
+        per = 32 // (UINT_W[et] if et != 'bool' else 1)
+        return (n + per - 1) // per
+    return n
+
+
+def positions(t, v, root=1, out=None, depth_left=3):
+    """generalized indices of structurally interesting nodes of the backing of value v (generator
+    guidance only: where to summarise so that reads / writes cross the boundary of an excluded subtree)"""
+    if out is None:
+        out = []
+    k = kind(t)
+    if is_basic(t) or depth_left < 0:
+        return out
+
+    def below(g, d, i):
+        return (g << d) | i
+    if k in ('list', 'bl', 'Bl'):
+        out.append(root * 2)          # contents
+        n = len(v) - 1 if k != 'Bl' else (len(v) - 1) // 2
+        if k == 'list':
+            d = _get_depth(_chunk_len(t, t[2]))
+            cnt = _chunk_len(t, n)
+        elif k == 'bl':
+            d = _get_depth((t[1] + 255) // 256)
+            cnt = (n + 255) // 256
+        else:
+            d = _get_depth((t[1] + 31) // 32)
+            cnt = (n + 31) // 32
+        for i in ([0, cnt - 1, cnt // 2] if cnt > 0 else []):
+            leaf = below(root * 2, d, i)
+            out.append(leaf)
+            for up in (1, 2):
+                if d >= up:
+                    out.append(leaf >> up)      # parent / grandparent of a chunk
+        if d >= 1:
+            out.append(below(root * 2, d, min(cnt, (1 << d) - 1)) >> 1)   # the pair the next append opens
+        if k == 'list' and not is_basic(t[1]):
+            for i in ([0, n - 1] if n > 0 else []):
+                positions(t[1], v[1 + i], below(root * 2, d, i), out, depth_left - 1)
+    elif k in ('vec', 'bv', 'Bv'):
+        if k == 'vec':
+            d = _get_depth(_chunk_len(t, t[2]))
+            cnt = _chunk_len(t, t[2])
+        elif k == 'bv':
+            d = _get_depth((t[1] + 255) // 256)
+            cnt = (t[1] + 255) // 256
+        else:
+            d = _get_depth((t[1] + 31) // 32)
+            cnt = (t[1] + 31) // 32
+        for i in [0, cnt - 1]:
+            leaf = below(root, d, i)
+            out.append(leaf)
+            if d >= 1:
+                out.append(leaf >> 1)
+        if k == 'vec' and not is_basic(t[1]):
+            for i in [0, t[2] - 1]:
+                positions(t[1], v[1 + i], below(root, d, i), out, depth_left - 1)
+    elif k == 'cont':
+        d = _get_depth(len(t) - 1)
+        for i, ft in enumerate(t[1:]):
+            g = below(root, d, i)
+            out.append(g)
+            positions(ft, v[1 + i], g, out, depth_left - 1)
+    elif k == 'union':
+        out.append(root * 2)
+        o = t[1:][int(v[1])]
+        if o != 'none':
+            positions(o, v[2], root * 2, out, depth_left - 1)
+    return out
